@@ -71,6 +71,11 @@ def forecasters():
     add("ensemble_median", lambda: EnsembleForecaster(
         [("a", NaiveForecaster("last")), ("b", NaiveForecaster("mean")),
          ("c", NaiveForecaster("drift"))], aggfunc="median"))
+    # the remaining aggregation functions; two members, so that members and steps are not equally many
+    add("ensemble_min", lambda: EnsembleForecaster(
+        [("a", NaiveForecaster("last")), ("b", PolynomialTrendForecaster(degree=1))], aggfunc="min"))
+    add("ensemble_max", lambda: EnsembleForecaster(
+        [("a", NaiveForecaster("mean")), ("b", NaiveForecaster("drift"))], aggfunc="max"))
     add("pipe_detrend_naive", lambda: TransformedTargetForecaster(
         [("d", Detrender(PolynomialTrendForecaster(degree=1))), ("f", NaiveForecaster("mean"))]),
         refit=False)  # composite update: each step updates itself, the pipeline is not refitted as a whole
